@@ -121,7 +121,20 @@ impl Check for C19Ints {
         tier.pick(40_000, 1_500_000)
     }
     fn strategy(&self, _t: Tier) -> BoxedStrategy<CaseInt> {
-        (vec(arb_int64(), 1..8), 0..ROUTES.len() as u8).prop_map(|(ints, route)| CaseInt { ints, route }).boxed()
+        // a third of the later integers are neighbours of the first one (a-2 .. a+2): integers
+        // that differ but round to the same double must stay different on every route
+        (vec(arb_int64(), 1..8), 0..ROUTES.len() as u8, vec((0u8..3, -2i128..=2), 8))
+            .prop_map(|(mut ints, route, near)| {
+                let a: i128 = ints[0].parse().unwrap_or(0);
+                for i in 1..ints.len() {
+                    let (f, k) = near[i];
+                    if f == 0 {
+                        ints[i] = (a + k).clamp(-(1i128 << 63), (1i128 << 64) - 1).to_string();
+                    }
+                }
+                CaseInt { ints, route }
+            })
+            .boxed()
     }
     fn check(&self, c: &CaseInt) -> CaseResult {
         let (route, mode) = ROUTES[c.route as usize % ROUTES.len()];
@@ -223,7 +236,8 @@ impl Check for C19Ints {
             return CaseResult::Fail(format!("route {}: the integers in the output are {:?}, expected {:?} (input {:?}, stdout {})", route, got, e, ints, esc_trunc(&o.stdout, 300)));
         }
         let big = ints.iter().any(|s| s.trim_start_matches('-').len() >= 16);
-        CaseResult::Pass(Info::new(big).class_if(route.starts_with("f:"), "function_route").class_if(!route.starts_with("f:"), "pipeline_route").obs(json!({"route": route, "ints": ints})))
+        let neighbours = ints.iter().skip(1).any(|s| s != &ints[0] && s.parse::<i128>().ok().zip(ints[0].parse::<i128>().ok()).map(|(x, y)| (x - y).abs() <= 2 && (x as f64) == (y as f64)).unwrap_or(false));
+        CaseResult::Pass(Info::new(big).class_if(neighbours, "different_integers_with_the_same_double").class_if(route.starts_with("f:"), "function_route").class_if(!route.starts_with("f:"), "pipeline_route").obs(json!({"route": route, "ints": ints})))
     }
 }
 
